@@ -10,12 +10,13 @@ import CE.Canon
   and the integer re-encoding idempotence: what the decoder emits for an encoder-written
   integer encodes to the same bytes again.
   `structural_encoding_is_a_fixed_point`: for EVERY document made of structural events
-  (containers, Booleans, null, integers of all widths and forms, identifiers, UIDs, strings and
-  resource identifiers in short and chunk-header form, comments, padding), decoding the encoder's
+  (containers, Booleans, null, integers of all widths and forms, big integers, binary floats,
+  decimal floats and big decimals, identifiers, UIDs, strings, resource identifiers and whole typed
+  arrays in short and chunk-header form, comments, padding), decoding the encoder's
   bytes and encoding the delivered events again yields exactly the same bytes: the encoding is
   canonical (CE/Cbe/Reencode.lean, induction over the stream).
   `…_partial`: floats (narrowest exact width), typed-array headers and the same fixed point for
-  floats / decimals / typed arrays are decided on every run by the driver's independent size
+  chunked arrays / media / custom types are decided on every run by the driver's independent size
   oracle (CBE.MINLEN) and by decode→encode byte identity on the implementation.
 -/
 namespace CE.Props.C22
